@@ -96,6 +96,7 @@ type ctlEnv struct {
 	dir     string
 	events  []string // effects recorded by scripted units
 	addrNet string   // network name reported by the server side of new sessions ("unix", "tcp", "netceptor-x")
+	slowWrite time.Duration // >0: every write of the server side to the session takes this long before the bytes are taken (a client that is slow to read)
 }
 
 func (e *ctlEnv) record(kind, id string) { e.events = append(e.events, kind+" "+id) }
@@ -153,6 +154,18 @@ type addrConn struct {
 	network string
 }
 
+// slowWriteConn: the bytes of a Write are taken only after a delay (the socket's send buffer is full because the
+// client is not reading); the caller's slice is referenced all that time, as with a real blocked write.
+type slowWriteConn struct {
+	net.Conn
+	d time.Duration
+}
+
+func (c slowWriteConn) Write(p []byte) (int, error) {
+	time.Sleep(c.d)
+	return c.Conn.Write(p)
+}
+
 type fakeAddr struct{ network, s string }
 
 func (a fakeAddr) Network() string { return a.network }
@@ -171,7 +184,10 @@ type ctlSession struct {
 func (e *ctlEnv) open() (*ctlSession, error) {
 	a, b := bufPipe()
 	s := &ctlSession{c: a, done: make(chan struct{})}
-	srv := addrConn{Conn: b, network: e.addrNet}
+	var srv net.Conn = addrConn{Conn: b, network: e.addrNet}
+	if e.slowWrite > 0 {
+		srv = slowWriteConn{Conn: srv, d: e.slowWrite}
+	}
 	go func() {
 		e.cs.RunControlSession(srv)
 		close(s.done)
